@@ -64,6 +64,15 @@ impl Out {
             _ => false,
         }
     }
+    /// like `rem_is_suffix`, but the address is judged even when the remainder is empty: an empty
+    /// remainder must be the empty slice AT THE END of the input (offset arithmetic such as
+    /// nom's `consumed` / `recognize` relies on it), not some unrelated empty slice
+    pub fn rem_is_suffix_strict(&self, input: &[u8], consumed: usize) -> bool {
+        match self {
+            Out::Ok { rem_len, rem_addr } => consumed <= input.len() && *rem_len == input.len() - consumed && *rem_addr == input.as_ptr() as usize + consumed,
+            _ => false,
+        }
+    }
     /// Ok whose remainder is *some* suffix of the input
     pub fn rem_is_some_suffix(&self, input: &[u8]) -> bool {
         match self {
